@@ -440,4 +440,16 @@ def generate():
     out.append("")
     out.append("(* ---- utility.py ---- *)")
     gen_util(ast.parse(open(os.path.join(KK, "utility.py")).read()), out)
+    out.append("")
+    out.append("(* ---- mock_data.py: the noise model ---- *)")
+    mtree = ast.parse(open(os.path.join(lib.SRC, "pyimpspec", "mock_data.py")).read())
+    src = ast.unparse(find(mtree, "_add_noise"))
+    for need in ("sd: NDArray[float64] = noise / 100 * abs(Z_ideal)", "Z_noisy.real = rs.normal(0, sd)", "Z_noisy.imag = rs.normal(0, sd)", "Z_noisy += Z_ideal",
+                 "rs: RandomState = RandomState(seed=seed)"):
+        if need not in src:
+            raise Reject("_add_noise: expected `%s`" % need)
+    out.append("(* rs.normal(0, sd) is sd times a standard normal draw: a, b stand for the two draws of one point *)")
+    out.append("Definition mock_sd (noise abs_Z_ideal : R) : R := noise / 100 * abs_Z_ideal.")
+    out.append("Definition mock_noisy_re (Z_re sd a : R) : R := sd * a + Z_re.")
+    out.append("Definition mock_noisy_im (Z_im sd b : R) : R := sd * b + Z_im.")
     lib._write_if_changed(os.path.join(lib.COQ, "gen", "KK_gen.v"), "\n".join(out) + "\n")
